@@ -577,6 +577,9 @@ func c15Bridge(c *Ctx, p *Prog, m *Model) {
 	// writeInternal
 	wr := p.Method(p.Slog, "Entry", "writeInternal")
 	if wr == nil {
+		wr = p.Method(p.Slog, "Entry", "WriteInternal") // the private half folded into the exported entry point
+	}
+	if wr == nil {
 		r.Unk("R15.5", "Entry.writeInternal", "-", "not found")
 		return
 	}
@@ -695,7 +698,9 @@ func c15Bridge(c *Ctx, p *Prog, m *Model) {
 		probs = append(probs, "the severity given is not passed on")
 	}
 	r.Check(len(probs) == 0, "R15.5", "Entry.writeInternal", p.FuncPos(wr), "drops exactly one trailing newline (tested), prints the rest once, reports len(buf)", strings.Join(dedupStr(probs), "; "))
-	if wI := p.Method(p.Slog, "Entry", "WriteInternal"); wI != nil {
+	if wI := p.Method(p.Slog, "Entry", "WriteInternal"); wI == wr && wI != nil {
+		r.Ok("R15.5", "Entry.WriteInternal", p.FuncPos(wI), "holds the newline stripping itself (decided above)")
+	} else if wI != nil {
 		ok := false
 		for _, cs := range callsTo(wI, wr) {
 			ok = true
